@@ -15,8 +15,9 @@ unwrap_resolved = Fn(FM, "unwrap_resolved", impl=RIMPL, slot="asm", ret="res", k
 
 FE = "src/expr/expression.rs"
 expect_sized = Fn(FE, "expect_error_or_sized_bigint", impl="Value", slot="expr", mode="stub", ret="res", key="Value::expect_error_or_sized_bigint",
-    ensures=ur.LOUD + [C("shape", "res is Ok ==> res->Ok_0 is Unknown || res->Ok_0 is FailedConstraint || (res->Ok_0 is Integer && res->Ok_0->Integer_0.size is Some)")])
-rim_match = Fn(FIN, "resolve_instruction_match", slot="resolver", mode="stub", ret="res", key="resolve_instruction_match", ensures=ur.LOUD)
+    ensures=ur.LOUD + [C("the_coalesced_value", "res is Ok ==> res->Ok_0 == crate::asm::resolver::coalesced(self)"), C("shape", "res is Ok ==> res->Ok_0 is Unknown || res->Ok_0 is FailedConstraint || (res->Ok_0 is Integer && res->Ok_0->Integer_0.size is Some)")])
+rim_match = Fn(FIN, "resolve_instruction_match", slot="resolver", mode="stub", ret="res", key="resolve_instruction_match", ensures=ur.LOUD + [
+    C("a_value_of_the_match", "res is Ok ==> is_value_of_match(res->Ok_0, *mtch, *ctx)")])
 rim = Fn(FIN, "resolve_instruction_matches", slot="resolver", ret="res", key="resolve_instruction_matches", props=["C02", "C03"],
     requires=[C("ruledefs_defined", "forall|k: int| 0 <= k < old(matches)@.len() ==> (#[trigger] old(matches)@[k]).ruledef_ref.0 < defs.ruledefs.defs@.len() && defs.ruledefs.defs@[old(matches)@[k].ruledef_ref.0 as int] is Some", ["C03"])],
     ensures=[C("err_is_loud", "res is Err ==> final(report).msgs() > old(report).msgs()", ["C03"]),
@@ -24,13 +25,18 @@ rim = Fn(FIN, "resolve_instruction_matches", slot="resolver", ret="res", key="re
              C("parents_balanced", "final(report).parents() == old(report).parents()", ["C03"]),
              C("same_matches", "final(matches)@.len() == old(matches)@.len()", ["C02"]),
              C("resolved_are_sized", "res is Ok ==> forall|k: int| 0 <= k < final(matches)@.len() && match_resolved(#[trigger] final(matches)@[k]) ==> (final(matches)@[k].encoding->Resolved_0).size is Some", ["C02"]),
+             C("every_encoding_is_recomputed_in_this_pass", "res is Ok ==> forall|k: int| 0 <= k < final(matches)@.len() ==> encoding_is_fresh(#[trigger] final(matches)@[k], old(matches)@[k], *ctx)", ["C02"]),
              C("only_the_encodings_change", "forall|k: int| 0 <= k < final(matches)@.len() ==> (#[trigger] final(matches)@[k]).ruledef_ref == old(matches)@[k].ruledef_ref && final(matches)@[k].rule_ref == old(matches)@[k].rule_ref && final(matches)@[k].args == old(matches)@[k].args", ["C02"])],
+    for_to_while=[1],
     loops={1: Loop(invariant=[
+        C("range", "verif_hi_1 == matches@.len()"),
         C("kept", "report.msgs() == old(report).msgs() && report.errors() == old(report).errors() && report.parents() == old(report).parents() && matches@.len() == old(matches)@.len()"),
         C("defined", "forall|k: int| 0 <= k < matches@.len() ==> (#[trigger] matches@[k]).ruledef_ref == old(matches)@[k].ruledef_ref && matches@[k].rule_ref == old(matches)@[k].rule_ref && matches@[k].args == old(matches)@[k].args"),
         C("ruledefs_defined", "forall|k: int| 0 <= k < old(matches)@.len() ==> (#[trigger] old(matches)@[k]).ruledef_ref.0 < defs.ruledefs.defs@.len() && defs.ruledefs.defs@[old(matches)@[k].ruledef_ref.0 as int] is Some"),
-        C("sized_so_far", "forall|k: int| 0 <= k < index && match_resolved(#[trigger] matches@[k]) ==> (matches@[k].encoding->Resolved_0).size is Some"),
-    ])},
+        C("sized_so_far", "forall|k: int| 0 <= k < verif_next_1 && match_resolved(#[trigger] matches@[k]) ==> (matches@[k].encoding->Resolved_0).size is Some"),
+        C("fresh_so_far", "forall|k: int| 0 <= k < verif_next_1 ==> encoding_is_fresh(#[trigger] matches@[k], old(matches)@[k], *ctx)"),
+        C("later_untouched", "forall|k: int| verif_next_1 <= k < matches@.len() ==> #[trigger] matches@[k] == old(matches)@[k]"),
+    ], decreases="verif_hi_1 - verif_next_1")},
 )
 note = Fn(FIN, "build_recursive_candidate_note", slot="resolver", mode="stub", ret="res", key="build_recursive_candidate_note", ensures=[])
 
